@@ -197,6 +197,6 @@ func loadRuntimeUnit() (*Unit, []string, error) {
 	u.OpaquePreds = map[string]bool{}
 	u.TrustedExt["fmt.Sprintf"] = &ExtSpec{Key: "fmt.Sprintf", Params: []string{"format"}}
 	u.TrustedExt["strconv.Quote"] = &ExtSpec{Key: "strconv.Quote", Params: []string{"s"}}
-	keys := []string{"tokens.Add", "tokens.Trim", "Init.add", "Init.matchDot", "translatePositions", "Init.reset", "Init.parse", "parseError.Error", "Init.memoize", "Init.memoizedResult"}
+	keys := []string{"tokens.Add", "tokens.Trim", "Init.add", "Init.matchDot", "translatePositions", "Init.reset", "Init.parse", "parseError.Error", "Init.memoize", "Init.memoizedResult", "tokens.Tokens", gp.structName() + ".Execute"}
 	return u, keys, nil
 }
